@@ -33,6 +33,9 @@ pub struct Bounds {
     pub drop_stop: bool,
     /// nested events per top-level event (0 = turns are atomic)
     pub nested: usize,
+    /// generic nesting: at every preemption point, every sequence of up to this many internal
+    /// events of other actors that is enabled at that moment (0 = only the candidate lists)
+    pub nested_generic: usize,
     pub max_states: usize,
     pub max_depth: usize,
 }
@@ -54,6 +57,7 @@ impl Default for Bounds {
             kills: 0,
             drop_stop: false,
             nested: 0,
+            nested_generic: 0,
             max_states: 400_000,
             max_depth: 64,
         }
@@ -97,6 +101,9 @@ pub struct Snap {
     pub enabled: Vec<Ev>,
     pub quiescent: bool,
     pub points: Vec<Pt>,
+    pub point_enabled: Vec<Vec<Ev>>,
+    pub after_plan_enabled: Vec<Ev>,
+    pub unrepresentable_join: bool,
     pub log: Vec<(usize, bool, Rec)>,
     pub log_ms: Vec<u64>,
     pub accept: Option<AcceptView>,
@@ -360,7 +367,11 @@ pub fn snapshot(sys: &Sys, b: &Bounds, history: &[Step]) -> Snap {
     let mut h = std::collections::hash_map::DefaultHasher::new();
     k.hash(&mut h);
     let quiescent = !en.iter().any(|e| e.is_internal());
+    let (point_enabled, after_plan_enabled) = w.take_point_enabled();
     Snap {
+        point_enabled,
+        after_plan_enabled,
+        unrepresentable_join: w.unrepresentable_join.get(),
         key: h.finish(),
         key_text: k,
         enabled: en,
@@ -391,6 +402,7 @@ pub fn snapshot(sys: &Sys, b: &Bounds, history: &[Step]) -> Snap {
 /// Replays `history` on a fresh server and returns the observation of the final state.
 pub fn run(cfg: &Config, b: &Bounds, history: &[Step]) -> Snap {
     let mut sys = Sys::new(cfg);
+    sys.w.observe_points.set(b.nested_generic > 0);
     for (ev, nested) in history {
         sys.apply(*ev, nested.clone());
         if sys.w.nested_invalid.get() || sys.w.plan_pending() {
@@ -509,6 +521,9 @@ pub struct Stats {
     pub executions: u64,
     pub nested_transitions: u64,
     pub invalid_nested: u64,
+    /// discarded because the server task reached its blocking join of the accept thread while
+    /// that thread was mid-step (not representable on one thread)
+    pub unrepresentable_joins: u64,
     pub quiescent_states: u64,
     pub max_depth: usize,
     pub capped: bool,
@@ -604,7 +619,7 @@ pub fn bfs_opt(spec: &dyn Spec, threads: usize, seed: u64, wall_cap: Duration, k
         }
     }
     machinery.extend(root.machinery.iter().cloned());
-    let mut frontier = vec![Node { history: vec![], enabled: root.enabled.clone(), snap_for_nested: if b.nested > 0 { Some(Box::new(root)) } else { None } }];
+    let mut frontier = vec![Node { history: vec![], enabled: root.enabled.clone(), snap_for_nested: if b.nested > 0 || b.nested_generic > 0 { Some(Box::new(root)) } else { None } }];
     let mut depth = 0;
     while !frontier.is_empty() && machinery.is_empty() {
         depth += 1;
@@ -626,16 +641,42 @@ pub fn bfs_opt(spec: &dyn Spec, threads: usize, seed: u64, wall_cap: Duration, k
             let points = snap.points.clone();
             let vios = spec.check(&snap, &mut armed);
             outs.push((Outcome { snap, history: h.clone(), nested: false }, vios));
+            let mut tried: Vec<(usize, Vec<Ev>)> = vec![];
             if b.nested > 0 {
                 if let Some(before) = &node.snap_for_nested {
                     for (ordinal, p) in points.iter().enumerate() {
                         for seq in nested_candidates(*p, *ev, before, b.nested) {
                             let mut hn = node.history.clone();
-                            hn.push((*ev, Some((ordinal, seq))));
+                            hn.push((*ev, Some((ordinal, seq.clone()))));
+                            tried.push((ordinal, seq));
                             let s = run(&cfg, &b, &hn);
                             let v = if s.invalid { vec![] } else { spec.check(&s, &mut armed) };
                             outs.push((Outcome { snap: s, history: hn, nested: true }, v));
                         }
+                    }
+                }
+            }
+            if b.nested_generic > 0 {
+                // every sequence of enabled internal events of other actors, depth first
+                let point_enabled = outs[0].0.snap.point_enabled.clone();
+                for (ordinal, en) in point_enabled.iter().enumerate() {
+                    let mut stack: Vec<Vec<Ev>> = en.iter().rev().map(|e| vec![*e]).collect();
+                    while let Some(seq) = stack.pop() {
+                        let mut hn = node.history.clone();
+                        hn.push((*ev, Some((ordinal, seq.clone()))));
+                        let s = run(&cfg, &b, &hn);
+                        if !s.invalid && seq.len() < b.nested_generic {
+                            for e2 in s.after_plan_enabled.iter().rev() {
+                                let mut s2 = seq.clone();
+                                s2.push(*e2);
+                                stack.push(s2);
+                            }
+                        }
+                        if tried.contains(&(ordinal, seq.clone())) {
+                            continue; // already an outcome through the candidate lists
+                        }
+                        let v = if s.invalid { vec![] } else { spec.check(&s, &mut armed) };
+                        outs.push((Outcome { snap: s, history: hn, nested: true }, v));
                     }
                 }
             }
@@ -654,6 +695,9 @@ pub fn bfs_opt(spec: &dyn Spec, threads: usize, seed: u64, wall_cap: Duration, k
                 stats.executions += 1;
                 if o.snap.invalid {
                     stats.invalid_nested += 1;
+                    if o.snap.unrepresentable_join {
+                        stats.unrepresentable_joins += 1;
+                    }
                     continue;
                 }
                 stats.transitions += 1;
@@ -720,7 +764,7 @@ pub fn bfs_opt(spec: &dyn Spec, threads: usize, seed: u64, wall_cap: Duration, k
                         }
                     }
                     let enabled = o.snap.enabled.clone();
-                    next.push(Node { history: o.history, enabled, snap_for_nested: if b.nested > 0 { Some(Box::new(o.snap)) } else { None } });
+                    next.push(Node { history: o.history, enabled, snap_for_nested: if b.nested > 0 || b.nested_generic > 0 { Some(Box::new(o.snap)) } else { None } });
                 }
             }
         }
